@@ -8,6 +8,7 @@
 
 __all__ = """
 SHOW_INFORMATIONAL_MESSAGES
+raise_if_worker_failed
 resolve_parallelism
 """.split()
 
@@ -71,3 +72,28 @@ def resolve_parallelism(parallel):
         return parallel
 
     return 1
+
+
+def raise_if_worker_failed(error_event):
+    """Fail visibly if a worker process reported an error.
+
+    Parameters
+    ----------
+    error_event : :class:`multiprocessing.Event`
+        An event that worker processes set when processing of an item raised an
+        exception.
+
+    Notes
+    -----
+    The parallel processing stages call this function in the parent process
+    after all of their workers have been joined. A worker that hits an error
+    prints the traceback, sets the event, and keeps honoring the queue protocol
+    so that the stage winds down normally; the error is then surfaced here, as
+    it would have been in serial mode.
+
+    """
+    if error_event.is_set():
+        raise RuntimeError(
+            "an error occurred while processing at least one item in a worker "
+            "process; see the traceback(s) printed above"
+        )
